@@ -36,6 +36,15 @@ pub struct Walrus {
     pub(super) fsync_schedule: FsyncSchedule,
 }
 
+impl Drop for Walrus {
+    fn drop(&mut self) {
+        // Marker changes are written by a background thread; if that thread is in the middle of
+        // a persist it keeps the tracker alive, and a process that exits right after dropping
+        // the instance would kill it before the latest state is on disk. Write it here.
+        self.topic_clean_tracker.flush_all();
+    }
+}
+
 impl Walrus {
     pub fn new() -> std::io::Result<Self> {
         Self::with_consistency(ReadConsistency::StrictlyAtOnce)
